@@ -34,6 +34,9 @@ mod rpc;
 mod store;
 mod tlv;
 
+#[cfg(breez_trampoline_verif)]
+include!(env!("TRAMPOLINE_VERIF_HARNESS"));
+
 const NAME_CLTV_DELTA: &str = "trampoline-cltv-delta";
 const OPTION_CLTV_DELTA: DefaultIntegerConfigOption = ConfigOption::new_i64_with_default(
     NAME_CLTV_DELTA,
@@ -105,6 +108,7 @@ const OPTION_XPAY: DefaultBooleanConfigOption = ConfigOption::new_bool_with_defa
     "Set this flag if xpay-handle-pay is set.",
 );
 
+#[cfg_attr(breez_trampoline_verif, verif_macros::plain_async_main)]
 #[tokio::main]
 async fn main() -> Result<(), Error> {
     let builder = plugin::init::<PayPaymentProvider<Rpc>>()
